@@ -35,7 +35,7 @@ class Prop(BaseProp):
             "side runs through the emulator whose memoryview proxy bounds-checks every index. Shapes exact, marks and "
             "multiplicities exact, reals 1e-12. distinct = interleaving words incl. keyword regime")
     budget = {"quick": 3200, "thorough": 1000000}
-    must_see = ["pair:" + p for p in PAIRS] + ["empty_train", "one_spike_train_on_t_end", "shared_interior_spike", "max_tau_positive", "RI_true"]
+    must_see = ["pair:" + p for p in PAIRS] + ["silent_pair_compared_in_full", "empty_train", "one_spike_train_on_t_end", "shared_interior_spike", "max_tau_positive", "RI_true"]
     arm_files = []
     assumptions = ["the .pyx side is a mechanical transliteration executed under CPython: C integer width/overflow, "
                    "memoryview striding, refcounting, GIL release and Cython-compiler behaviour are out of reach",
@@ -120,10 +120,10 @@ class Prop(BaseProp):
         self.cmp(ctx, "spike_profile", tuple(csk), tuple(psk), exact=(0,))
         pc = C(pb.coincidence_python, s1, s2, ts, te, mt, m)
         cc = C(cp.coincidence_profile_cython, s1, s2, ts, te, mt, m)
-        if len(s1) + len(s2) > 0:
-            self.cmp(ctx, "coincidence_profile", tuple(cc), tuple(pc), exact=(0, 1, 2))
-        else:
-            self.cmp(ctx, "coincidence_profile", (A(cc[0]),), (A(pc[0]),), exact=(0,))
+        # (two silent trains included: both twins return the two edge entries with value 1, multiplicity 1)
+        if len(s1) + len(s2) == 0:
+            ctx.count("silent_pair_compared_in_full")
+        self.cmp(ctx, "coincidence_profile", tuple(cc), tuple(pc), exact=(0, 1, 2))
         for (u, v, lab) in ((s1, s2, "1|2"), (s2, s1, "2|1")):
             self.cmp(ctx, "coincidence_single_profile", C(cp.coincidence_single_profile_cython, u, v, ts, te, mt, m),
                      C(pb.coincidence_single_python, u, v, ts, te, mt, m), exact=(0,), label="coincidence_single " + lab)
@@ -147,10 +147,7 @@ class Prop(BaseProp):
         # --- directionality
         po = C(dpb.spike_train_order_profile_python, s1, s2, ts, te, mt, m)
         co = C(cdir.spike_train_order_profile_cython, s1, s2, ts, te, mt, m)
-        if len(s1) + len(s2) > 0:
-            self.cmp(ctx, "spike_train_order_profile", tuple(co), tuple(po), exact=(0, 1, 2))
-        else:
-            self.cmp(ctx, "spike_train_order_profile", (A(co[0]),), (A(po[0]),), exact=(0,))
+        self.cmp(ctx, "spike_train_order_profile", tuple(co), tuple(po), exact=(0, 1, 2))
         so = C(cdir.spike_train_order_cython, s1, s2, ts, te, mt, m)
         self.cmp(ctx, "spike_train_order(single-pass)", (float(so[0]), float(so[1])),
                  (float(np.sum(A(po[1])[1:-1])), float(np.sum(A(po[2])[1:-1]))) if len(s1) + len(s2) else (0.0, 0.0), exact=(0, 1))
